@@ -72,11 +72,13 @@ CLAIMED = {
               "code on transformed cards of every non-torus mnemonic under identity / permutation / Pythagorean / "
               "generic rotations. TR cards: two given rows or columns are completed by the vector "
               "product to a proper rotation reproducing every supplied entry (two_rows_completed, two_columns_completed, "
-              "completed_matrix_is_rotation), a full proper rotation is kept as written (adjust_keeps_rotation, "
+              "completed_matrix_is_rotation), one full row and one full column in any of the nine positions (five entries, "
+              "Euler-angle form, incl. the degenerate case sin β = 0) are completed to a proper rotation reproducing "
+              "every supplied entry (row_column_completed, euler_rot, roll_rot), a full proper rotation is kept as written (adjust_keeps_rotation, "
               "full_rotation_kept), m ≠ 1 is rejected, three entries are a displacement; the model of normalize_transform "
               "(all forms: 3/5/6/9/12/13 entries, J placeholders, adjust_matrix) is compared with the code and the "
-              "completed matrix checked to be a rotation reproducing the supplied entries. The one-row (3) and "
-              "row+column (5) completions, degrees → cosines, TRCL on cells, implicit surfaces 1000·cell+surface, tilted "
+              "completed matrix checked to be a rotation reproducing the supplied entries. The one-row (3) "
+              "completion, degrees → cosines, TRCL on cells, implicit surfaces 1000·cell+surface, tilted "
               "tori and tilted cones are decided by correspondence and the Lean spec monitor, not by theorems."),
         design_ref='§8 C04'),
     'C05': dict(
